@@ -232,6 +232,23 @@ pub fn char_oracle(orig: &str, d: &Dump, c: &CharDump) -> Option<String> {
     let cur = &d.cur;
     let nch = cur.chars().count();
     let coff: Vec<usize> = cur.char_indices().map(|(i, _)| i).chain(std::iter::once(cur.len())).collect();
+    // ch_idx: every byte carries the index of its character; ch_idx(to_curr_byte_idx(i)) = i on a non-empty text
+    if !cur.is_empty() {
+        for (i, off) in coff.iter().enumerate() {
+            if d.c2b.get(i) != Some(off) {
+                return Some(format!("to_curr_byte_idx({}) = {:?}, character {} starts at byte {}", i, d.c2b.get(i), i, off));
+            }
+            if d.b2c.get(*off) != Some(&i) {
+                return Some(format!("ch_idx({}) = {:?}, but byte {} is the start of character {}", off, d.b2c.get(*off), off, i));
+            }
+        }
+        for (p, k) in d.b2c.iter().enumerate().take(cur.len()) {
+            let want = coff.iter().filter(|o| **o <= p).count() - 1;
+            if *k != want {
+                return Some(format!("ch_idx({}) = {}, but byte {} belongs to character {}", p, k, p, want));
+            }
+        }
+    }
     for (a, b, cs, os, cr) in &c.pairs {
         let inside = a <= b && *b <= nch;
         let want_c = if inside { Some(cur[coff[*a]..coff[*b]].to_string()) } else { None };
